@@ -52,6 +52,7 @@ TICK = ['vpH_tick_CheckQuorum_et2', 'vpH_tick_CheckQuorum_inactive_et2', 'vpH_ti
 LOG = ['vpH_log_maybeAppend_0_2_1', 'vpH_log_slice_2_1', 'vpH_log_term_2_1', 'vpH_log_storageAppend_2_2', 'vpH_log_storageCompact_2', 'vpH_log_storageSnapshots_2', 'vpH_log_storageQueries_2', 'vpH_log_queries_1_1', 'vpH_log_unstableOps_1_2', 'vpH_log_maybeAppend_1_1_2']
 LOG_T = ['vpH_log_storageAppend_3_3', 'vpH_log_storageCompact_3', 'vpH_log_storageSnapshots_2', 'vpH_log_storageQueries_3', 'vpH_log_queries_2_2', 'vpH_log_unstableOps_2_2', 'vpH_log_maybeAppend_2_2_2']
 CONF = ['vpH_conf_Propose_2', 'vpH_conf_Propose_2_joint', 'vpH_conf_Apply_L', 'vpH_conf_Apply_F']
+CONF_COMMIT = ['vpH_conf_Apply_L_commit', 'vpH_conf_Apply_L_commit_single']
 CONF_T = CONF + ['vpH_conf_Propose_3', 'vpH_conf_Apply_L2', 'vpH_conf_Apply_F2']
 SIZE = ['vpH_size_L_MsgHeartbeatResp', 'vpH_size_L_MsgProp', 'vpH_size_L_MsgAppResp']
 TRACK = ['vpH_t_InflightsAdd_3', 'vpH_t_InflightsFree_3', 'vpH_t_InflightsMisc_3', 'vpH_t_ProgressOps']
@@ -59,7 +60,7 @@ TRACK_T = ['vpH_t_InflightsAdd_4', 'vpH_t_InflightsFree_4', 'vpH_t_InflightsMisc
 DET = ['vpH_det_F_MsgHup_bigids', 'vpH_det_L_MsgBeat_bigids', 'vpH_det_F_MsgVote', 'vpH_det_F_MsgApp', 'vpH_det_F_MsgHup', 'vpH_det_C_MsgVoteResp', 'vpH_det_P_MsgPreVoteResp', 'vpH_det_L_MsgHeartbeatResp', 'vpH_det_L_MsgProp', 'vpH_det_L_MsgBeat', 'vpH_det_L_MsgCheckQuorum', 'vpH_det_L_MsgReadIndex']
 DET_T = DET + ['vpH_det_F_MsgSnap', 'vpH_det_L_MsgAppResp', 'vpH_detAll_F_MsgHup', 'vpH_detAll_C_MsgVoteResp', 'vpH_detAll_L_MsgBeat', 'vpH_detAll_L_MsgCheckQuorum', 'vpH_detAll_L_MsgHeartbeatResp', 'vpH_detAll_L_MsgProp']
 
-API_ALL = ['vpH_api_Campaign_F', 'vpH_api_Campaign_L', 'vpH_api_Propose_F', 'vpH_api_Propose_C', 'vpH_api_Propose_L', 'vpH_api_ReadIndex_F', 'vpH_api_ReadIndex_L', 'vpH_api_TransferLeader_F', 'vpH_api_TransferLeader_L', 'vpH_api_ForgetLeader_F', 'vpH_api_ReportUnreachable_L', 'vpH_api_ReportSnapshot_L', 'vpH_api_Tick_F', 'vpH_api_Tick_L', 'vpH_api_ProposeConfChange_v1', 'vpH_api_ProposeConfChange_v2']
+API_ALL = ['vpH_api_Campaign_F', 'vpH_api_Campaign_L', 'vpH_api_Propose_F', 'vpH_api_Propose_C', 'vpH_api_Propose_L', 'vpH_api_ReadIndex_F', 'vpH_api_ReadIndex_L', 'vpH_api_TransferLeader_F', 'vpH_api_TransferLeader_L', 'vpH_api_ForgetLeader_F', 'vpH_api_ReportUnreachable_L', 'vpH_api_ReportSnapshot_L', 'vpH_api_Tick_F', 'vpH_api_Tick_L', 'vpH_api_ProposeConfChange_v1', 'vpH_api_ProposeConfChange_v2', 'vpH_api_StepFilter_F', 'vpH_api_StepFilter_L']
 API_LIGHT = [h for h in API_ALL if h not in ('vpH_api_TransferLeader_L', 'vpH_api_Tick_L', 'vpH_api_Propose_L')]
 API_TXT = "RawNode request methods (Campaign, Propose, ReadIndex, TransferLeader, ForgetLeader, ReportUnreachable, ReportSnapshot, Tick): relational cells decide that the method leaves the node exactly as stepping the documented message does (labels API/). "
 
@@ -137,8 +138,8 @@ prop("C03",
      "M1 follower append (slice present afterwards, entries before the first conflict kept, truncation only at a conflict), M2 every MsgApp carries consecutive log entries anchored at a log position, M3 a leader never changes its own log except by appending entries of its term, M4 storage acknowledgements never change the logical log, M5 rejection hints.")
 
 prop("C06",
-     H(LEAD + LEAD_HBR_Q + LEAD_ACK_Q + CONF[2:3], ["Q1/", "Q2/", "Q4/"]) + H(APP[:1] + HB, ["Q3/", "Q4/", "Q5/"]) + H(['vpH_t_TrackerCommitted_3'], ["Q1/"]),
-     H(T(LEAD + LEAD_HBR + LEAD_ACK), ["Q1/", "Q2/", "Q4/"]) + H(CONF[2:3], ["Q1/"]) + H(T(APP + HB), ["Q3/", "Q4/", "Q5/"]) + H(['vpH_t_TrackerCommitted_3', 'vpH_log_maybeAppend_2_2_2'], ["Q1/", "Q5/"]),
+     H(LEAD + LEAD_HBR_Q + LEAD_ACK_Q + CONF[2:3], ["Q1/", "Q2/", "Q4/"]) + H(APP[:1] + HB, ["Q3/", "Q4/", "Q5/"]) + H(['vpH_t_TrackerCommitted_3'], ["Q1/"]) + H(CONF_COMMIT, ["Q1/", "H1/"]),
+     H(T(LEAD + LEAD_HBR + LEAD_ACK), ["Q1/", "Q2/", "Q4/"]) + H(CONF[2:3], ["Q1/"]) + H(T(APP + HB), ["Q3/", "Q4/", "Q5/"]) + H(['vpH_t_TrackerCommitted_3', 'vpH_log_maybeAppend_2_2_2'], ["Q1/", "Q5/"]) + H(CONF_COMMIT, ["Q1/", "H1/"]),
      BQ + BT + OUT,
      "Q1 the leader's commit index only advances to an own-term entry matched by a joint majority, Q2 Match rises only through a non-reject MsgAppResp of the current term from that peer, Q3 acknowledgements are truthful, Q4 heartbeats carry min(Match, commit), Q5 follower commit = max(old, min(leader commit, end of slice)); Q6 commit <= last index is part of Inv.")
 
@@ -173,8 +174,8 @@ prop("C09",
      "S1 a snapshot at or below the commit index, without this node, or matching the log changes nothing but (for a match) the commit index; otherwise it replaces the log, commit index and configuration exactly; S2 persistence handshake; S3 the leader sends the storage snapshot only for a compacted prefix and tracks it; S4 snapshot status handling.")
 
 prop("C10",
-     H(CONF, ["G1/", "G4/", "Q1/", "P1/"]) + H(HUP[:3] + HUP[4:7], ["G3/"]) + H(ACK[:3], ["G6/"]) + H(VRESP[:2], ["E3/"]) + H(HUP_X, ["G3/"]) + H(["vpH_api_ProposeConfChange_v1", "vpH_api_ProposeConfChange_v2"], ["API/propose-conf-change"]),
-     H(CONF_T, ["G1/", "G4/", "Q1/", "P1/"]) + H(T(HUP), ["G3/"]) + H(ACK[:3], ["G6/"]) + H(T(VRESP), ["E3/"]) + H(HUP_X, ["G3/"]) + H(["vpH_api_ProposeConfChange_v1", "vpH_api_ProposeConfChange_v2"], ["API/propose-conf-change"]),
+     H(CONF, ["G1/", "G4/", "Q1/", "P1/"]) + H(HUP[:3] + HUP[4:7], ["G3/"]) + H(ACK[:3], ["G6/"]) + H(VRESP[:2], ["E3/"]) + H(HUP_X, ["G3/"]) + H(["vpH_api_ProposeConfChange_v1", "vpH_api_ProposeConfChange_v2"], ["API/propose-conf-change"]) + H(CONF_COMMIT, ["G4/", "Q1/"]),
+     H(CONF_T, ["G1/", "G4/", "Q1/", "P1/"]) + H(T(HUP), ["G3/"]) + H(ACK[:3], ["G6/"]) + H(T(VRESP), ["E3/"]) + H(HUP_X, ["G3/"]) + H(["vpH_api_ProposeConfChange_v1", "vpH_api_ProposeConfChange_v2"], ["API/propose-conf-change"]) + H(CONF_COMMIT, ["G4/", "Q1/"]),
      BQ + BT + "Propose gate: <= 2 (3) entries per proposal, each normal / ConfChange / ConfChangeV2 with <= 2 changes, symbolic types and node ids; ApplyConfChange: <= 2 changes over ids 1..4 on shapes {simple, joint, joint+LearnersNext, self learner}, restricted to changes the Changer accepts (A-cc). " + OUT,
      "G1 the propose gate keeps at most one unapplied configuration change and refuses enter/leave mismatches, G3 no campaign with a committed-but-unapplied change, G4 ApplyConfChange installs exactly the Changer's result (C13) and handles leader removal, G5 election and commit quorums are joint (E3, Q1 on joint shapes), G6 auto-leave is proposed exactly when the joint configuration has been applied.")
 
@@ -204,8 +205,8 @@ prop("C20",
      "P1 an accepted proposal appends exactly the proposed entries (payload, type, order) once, as copies, P2 a dropped proposal changes nothing, P3 non-leaders forward the same entries once or drop, P4 outside proposals every new or changed log entry is an entry of the stepped MsgApp, the empty entry of a new leader or the empty auto-leave entry.")
 
 prop("C14",
-     H(VOTE + VRESP[:4] + HUP + HB + APP[:1] + SNAP[:1] + PROP_Q + LEAD + LEAD_ACK_Q[:1] + SMALL, ["Inv/"], panics=True) + H(RAW_SYNC_Q + RAW_ASYNC_Q[:1] + RAW_SNAP + RESTART + CONF[2:] + ACK[:1] + ACK[3:4], ["Inv/"], panics=True) + H(API_LIGHT + ["vpH_api_Propose_L"], ["API/"], panics=True) + H(HUP_X, ["Inv/", "G3/"], panics=True) + H(["vpH_step_L_MsgTransferLeader_learner"], ["Inv/"], panics=True),
-     H(T(ALL_STEP + LEAD_ACK + APP_L + SNAP_L), ["Inv/"], panics=True) + H(RAW_ALL + RAW_ADV + ['vpH_raw_Restart_3'] + CONF + ACK + TICK, ["Inv/"], panics=True) + H(LOG_T + TRACK_T, ["C18/", "C16/"], panics=True) + H(API_ALL, ["API/"], panics=True) + H(HUP_X, ["Inv/", "G3/"], panics=True) + H(["vpH_step_L_MsgTransferLeader_learner"], ["Inv/"], panics=True),
+     H(VOTE + VRESP[:4] + HUP + HB + APP[:1] + SNAP[:1] + PROP_Q + LEAD + LEAD_ACK_Q[:1] + SMALL, ["Inv/"], panics=True) + H(RAW_SYNC_Q + RAW_ASYNC_Q[:1] + RAW_SNAP + RESTART + CONF[2:] + ACK[:1] + ACK[3:4], ["Inv/"], panics=True) + H(API_LIGHT + ["vpH_api_Propose_L"], ["API/"], panics=True) + H(HUP_X, ["Inv/", "G3/"], panics=True) + H(["vpH_step_L_MsgTransferLeader_learner"], ["Inv/"], panics=True) + H(CONF_COMMIT, ["Inv/"], panics=True),
+     H(T(ALL_STEP + LEAD_ACK + APP_L + SNAP_L), ["Inv/"], panics=True) + H(RAW_ALL + RAW_ADV + ['vpH_raw_Restart_3'] + CONF + ACK + TICK, ["Inv/"], panics=True) + H(LOG_T + TRACK_T, ["C18/", "C16/"], panics=True) + H(API_ALL, ["API/"], panics=True) + H(HUP_X, ["Inv/", "G3/"], panics=True) + H(["vpH_step_L_MsgTransferLeader_learner"], ["Inv/"], panics=True) + H(CONF_COMMIT, ["Inv/"], panics=True),
      BQ + BT + OUT,
      "No run of any cell ends in a panic (explicit panic, Logger.Panic*, index/slice out of range, nil dereference, nil-map write, failed type assertion, division by zero) and the representation invariant holds afterwards, under Inv, the V-* input assumptions, A-cc and the storage contract.")
 
